@@ -493,12 +493,18 @@ Definition rp_round (r : round) : list val :=
    | RcOk => (VN 0 :: verrno (rr_errid rr) :: rp_frame rr) ++ [VS "|"] ++ flat_map rp_call (rd_calls r)
              ++ [VS "|"; (if rd_prc_ok r then VN 0 else VS (ename EINVAL))]
    end ++ [VH (rd_reply r); VN (rd_allocs r); VN (rd_frees r); VN 0])%list.
+Definition flip_bit (raw : list N) (i : N) : list N :=
+  upd raw (N.to_nat (i / 8)) (N.lxor (nth (N.to_nat (i / 8)) raw 0) (2 ^ (i mod 8))).
 Definition run_rp (op : string) (a : list val) : list val :=
-  if String.eqb op "rp.serve" then
+  if String.eqb op "rp.serve" || String.eqb op "rp.corrupt" then
+    let corrupt := String.eqb op "rp.corrupt" in
     let bs := argN 3 a in
     if (bs <=? SIZEOF_RPFRAME) || (1048576 <? bs) then [VS "skip"] else
     let p := {| g_mem16 := argB 1 a; g_serial := argB 0 a; g_seq := 0; g_blocksize := bs |} in
-    let st := {| ss_src := src_plain (argB 2 a) (argH 5 a); ss_alloc := map (fun z => negb (z =? 0)%Z) (argLZ 4 a);
+    if corrupt && existsb (fun i => 8 * N.of_nat (List.length (argH 5 a)) <=? i) (argLN 4 a) then [VS "skip"] else
+    let stream := if corrupt then frame_wire p (fold_left flip_bit (argLN 4 a) (argH 5 a)) [] else argH 5 a in
+    let st := {| ss_src := src_plain (argB 2 a) stream;
+                 ss_alloc := if corrupt then [] else map (fun z => negb (z =? 0)%Z) (argLZ 4 a);
                  ss_verdicts := triples (argLN 6 a); ss_allocs := 0; ss_frees := 0 |} in
     match serve 64 p st with
     | None => [VS "out-of-fuel"]
